@@ -393,32 +393,39 @@ Section ScaledProofs.
   (* max / min                                                                                   *)
   (* ------------------------------------------------------------------------------------------ *)
   Variable fle : F -> F -> bool.
-  Hypothesis mono : forall s o x y, x <= y -> fle (ap s o x) (ap s o y) = true.
+  Variable pos : S -> bool.
+  (* only scales the code recognises as positive need to keep the order: the others never reach the grid route *)
+  Hypothesis mono : forall s o x y, pos s = true -> x <= y -> fle (ap s o x) (ap s o y) = true.
   Hypothesis antisym : forall a b, fle a b = true -> fle b a = true -> a = b.
 
-  Lemma red_step r s o x y : ap s o (zred r x y) = fred F fle r (ap s o x) (ap s o y).
+  Lemma red_step r s o x y : pos s = true -> ap s o (zred r x y) = fred F fle r (ap s o x) (ap s o y).
   Proof.
-    destruct r; cbn [zred fred]; unfold fmax2, fmin2.
+    intros Hp. destruct r; cbn [zred fred]; unfold fmax2, fmin2.
     - destruct (Z_le_gt_dec x y) as [H|H].
-      + rewrite Z.max_r by lia. now rewrite (mono s o x y H).
+      + rewrite Z.max_r by lia. now rewrite (mono s o x y Hp H).
       + rewrite Z.max_l by lia. destruct (fle (ap s o x) (ap s o y)) eqn:E; [|reflexivity].
-        apply antisym; [exact E|apply mono; lia].
+        apply antisym; [exact E|apply mono; [exact Hp|lia]].
     - destruct (Z_le_gt_dec x y) as [H|H].
       + rewrite Z.min_l by lia. destruct (fle (ap s o y) (ap s o x)) eqn:E; [|reflexivity].
-        apply antisym; [apply mono; lia|exact E].
-      + rewrite Z.min_r by lia. rewrite (mono s o y x) by lia. reflexivity.
+        apply antisym; [apply mono; [exact Hp|lia]|exact E].
+      + rewrite Z.min_r by lia. rewrite (mono s o y x Hp) by lia. reflexivity.
   Qed.
 
-  Lemma red_fold r s o t : forall x,
+  Lemma red_fold r s o t : pos s = true -> forall x,
     ap s o (fold_left (zred r) t x) = fold_left (fred F fle r) (map (ap s o) t) (ap s o x).
-  Proof. induction t as [|y t IH]; intros x; [reflexivity|]. cbn [fold_left map]. now rewrite IH, red_step. Qed.
+  Proof. intros Hp. induction t as [|y t IH]; intros x; [reflexivity|]. cbn [fold_left map]. now rewrite IH, red_step. Qed.
+
+  (* the translated max/min test the sign of the scale before answering from the grid (fails to check when the source loses the test) *)
+  Lemma grid_guards r : grid_guard r = true.
+  Proof. destruct r; reflexivity. Qed.
 
   Lemma scaled_minmax r init (v : sview) : wf S O F v ->
-    view_reduce S O F ap fle r init v = np_reduce F fle r init (materialise v).
+    view_reduce S O F ap fle pos r init v = np_reduce F fle r init (materialise v).
   Proof.
     intros Hwf. destruct v as [f|fs|xs s o|xs ss os|rows ss os|k0 m0]; cbn [wf] in Hwf; try contradiction.
     - unfold view_reduce, reduce_plan. cbn [is_value]. rewrite reduce_routes. cbn [is_multi orb].
-      destruct init as [i|]; [reflexivity|]. cbn [Views.materialise np_reduce fold_init].
+      destruct init as [i|]; [reflexivity|]. rewrite grid_guards. cbn [negb]. rewrite orb_false_r.
+      destruct (pos s) eqn:Hp; [|reflexivity]. cbn [Views.materialise np_reduce fold_init].
       destruct xs as [|x t]; [reflexivity|]. cbn [fold1 option_map map]. now rewrite red_fold.
     - unfold view_reduce, reduce_plan. cbn [is_value]. rewrite reduce_routes. reflexivity.
   Qed.
@@ -507,14 +514,14 @@ Section ScaledProofs.
   Proof. intros Hwf. exact (proj1 (chain_correct ixs v (or_intror Hwf))). Qed.
 
   Lemma reduce_ok r init (x : sview) : okv x ->
-    view_reduce S O F ap fle r init x = np_reduce F fle r init (materialise x).
+    view_reduce S O F ap fle pos r init x = np_reduce F fle r init (materialise x).
   Proof.
     intros [Hv|Hwf]; [|now apply scaled_minmax]. unfold view_reduce, reduce_plan. now rewrite Hv.
   Qed.
 
   (* any chain of index expressions followed by the result's own max/min *)
   Lemma chain_reduce ixs r init (v : sview) : wf S O F v ->
-    match chain S O F ap ixs v with Some x => view_reduce S O F ap fle r init x | None => None end
+    match chain S O F ap ixs v with Some x => view_reduce S O F ap fle pos r init x | None => None end
     = match np_chain F ixs (materialise v) with Some a => np_reduce F fle r init a | None => None end.
   Proof.
     intros Hwf. destruct (chain_correct ixs v (or_intror Hwf)) as [E C].
@@ -524,14 +531,30 @@ Section ScaledProofs.
 End ScaledProofs.
 
 (* the hypotheses are satisfiable: integer scales > 0 in exact arithmetic *)
-Lemma ap_Z_mono s o x y : x <= y -> Z.leb (ap_Z s o x) (ap_Z s o y) = true.
-Proof. unfold ap_Z. intros H. apply Z.leb_le. nia. Qed.
+Definition pos_all (s : positive) : bool := true.
+Lemma ap_Z_mono s o x y : pos_all s = true -> x <= y -> Z.leb (ap_Z s o x) (ap_Z s o y) = true.
+Proof. unfold ap_Z. intros _ H. apply Z.leb_le. nia. Qed.
 Lemma leb_antisym a b : Z.leb a b = true -> Z.leb b a = true -> a = b.
 Proof. lia. Qed.
 
 Lemma scaled_minmax_Z r init (v : sview positive Z Z) : wf positive Z Z v ->
-  view_reduce positive Z Z ap_Z Z.leb r init v = np_reduce Z Z.leb r init (materialise positive Z Z ap_Z v).
+  view_reduce positive Z Z ap_Z Z.leb pos_all r init v = np_reduce Z Z.leb r init (materialise positive Z Z ap_Z v).
 Proof. apply scaled_minmax; [exact ap_Z_mono|exact leb_antisym]. Qed.
+
+(* ... and with scales of either sign (or zero) in exact arithmetic: x * s + o, s : Z, the code's test being 0 < s *)
+Definition ap_ZZ (s o x : Z) : Z := x * s + o.
+Definition pos_Z (s : Z) : bool := 0 <? s.
+Lemma ap_ZZ_mono s o x y : pos_Z s = true -> x <= y -> Z.leb (ap_ZZ s o x) (ap_ZZ s o y) = true.
+Proof. unfold ap_ZZ, pos_Z. intros Hs H. apply Z.ltb_lt in Hs. apply Z.leb_le. nia. Qed.
+Lemma scaled_minmax_any_sign r init (v : sview Z Z Z) : wf Z Z Z v ->
+  view_reduce Z Z Z ap_ZZ Z.leb pos_Z r init v = np_reduce Z Z.leb r init (materialise Z Z Z ap_ZZ v).
+Proof. apply scaled_minmax; [exact ap_ZZ_mono|exact leb_antisym]. Qed.
+(* without the guard the grid route answers -14 where numpy answers 21: the extremum of the grid is the other extremum of the values *)
+Lemma negative_scale_example :
+  view_reduce Z Z Z ap_ZZ Z.leb pos_Z RMax None (V1 [4; -3; 9] (-5) 6) = Some 21
+  /\ view_reduce Z Z Z ap_ZZ Z.leb pos_Z RMin None (V1 [4; -3; 9] (-5) 6) = Some (-39)
+  /\ view_reduce Z Z Z ap_ZZ Z.leb (fun _ => true) RMax None (V1 [4; -3; 9] (-5) 6) = Some (-39).
+Proof. repeat split; reflexivity. Qed.
 
 (* ---------------------------------------------------------------------------------------------- *)
 (* keywords of a call                                                                              *)
